@@ -333,12 +333,14 @@ DoEndBlock(s) ==
       s1 == RefundAll(s, due)
   IN Done([s1 EXCEPT !.h = s.h + 1], EmptyF)
 
-(* An account outside the module sends coins to the farm module account.
-   (bank MsgSend; the module account is not blocked.) *)
-DoDonate(s, who, d, amt) ==
-  IF amt <= 0 \/ s.bal[who][d] < amt THEN Fail(s)
-  ELSE Done([s EXCEPT !.bal = Move(s.bal, who, FARM, (d :> amt)),
-                      !.donated = Put(s.donated, d, Amt(s.donated, d) + amt)], EmptyF)
+(* An account outside the module sends coins to the farm module account by a
+   plain bank send.  Since fix 20cb755 the application blocks the irismod module
+   accounts as recipients of plain transfers, so the send is rejected and nothing
+   moves.  (Before it the send succeeded; made before the module account existed
+   it left a base account at the module address and every later farm operation
+   panicked "account is not a module account" - finding F30.)  The `donated`
+   tally stays in the state for traces of applications that allow such sends. *)
+DoDonate(s, who, d, amt) == FailW(s, "blocked")
 
 (* Dispatch on an event record: the deterministic step function *)
 Apply(s, e) ==
